@@ -133,11 +133,16 @@ func kvConcScenario(c *core.Ctx, cfg KVCfg, wl KVWL) {
 			}
 			done++
 			_ = w.Close()
-			if gate != nil && gate.due(op.MR) {
-				// the scheduler's quiescence wait at this yield lets the merger run until it is idle
-				gate.set(false)
-				s.Yield("moss.merger")
-				gate.set(true)
+			if gate != nil {
+				if gate.due(op.MR) {
+					// the scheduler's quiescence wait at this yield lets the merger run until it is idle
+					gate.set(false)
+					s.Yield("moss.merger")
+					gate.set(true)
+					c.Probe("moss_merger_ran_until_idle")
+				} else {
+					c.Fault("moss_merger_stalled_over_batch")
+				}
 			}
 			s.Yield("writer-between-batches")
 		}
